@@ -226,7 +226,8 @@ impl IncRun {
                     self.w.exec(&u, &inc, &ExecuteMsg::OpenFlow { start_epoch: None, end_epoch: Some(cur + args["len"].as_u64().unwrap_or(10)), curve: None,
                         flow_asset: ra.asset(a), flow_label: None }, &funds)
                 } else {
-                    self.w.exec(&u, &inc, &ExecuteMsg::ExpandFlow { flow_identifier: FlowIdentifier::Id(args["id"].as_u64().unwrap()), end_epoch: None, flow_asset: ra.asset(a) }, &funds)
+                    let cur = self.epoch();
+                    self.w.exec(&u, &inc, &ExecuteMsg::ExpandFlow { flow_identifier: FlowIdentifier::Id(args["id"].as_u64().unwrap()), end_epoch: match args["ext"].as_u64().unwrap_or(0) { 0 => None, k => Some(cur + k) }, flow_asset: ra.asset(a) }, &funds)
                 }
             }
             "closeflow" => {
@@ -306,7 +307,7 @@ pub fn run_random(rec: &mut Rec, seed: u64, run: u64, nops: usize) {
                     funds.push(json!({"d": fa, "amt": s(fx)}));
                     funds.push(json!({"d": asset, "amt": s(ax)}));
                 }
-                p.step(rec, run, step, "openflow", ui, json!({"asset": asset, "amt": s(a), "funds": funds, "len": r.gen_range(1..20u64)}))
+                p.step(rec, run, step, "openflow", ui, json!({"asset": asset, "amt": s(a), "funds": funds, "len": match r.gen_range(0..8) { 0 => 150u64, 1 => 181, 2 => 300, _ => r.gen_range(1..20u64) }}))
             }
             87..=92 => {
                 let fl = p.flows();
@@ -315,7 +316,9 @@ pub fn run_random(rec: &mut Rec, seed: u64, run: u64, nops: usize) {
                 let asset = p.reward_name(&f.info);
                 let a = gen::amount(&mut r, scale.max(5000));
                 let x = match r.gen_range(0..5) { 0 => a.saturating_sub(1), 1 => a + 1, _ => a };
-                p.step(rec, run, step, "expandflow", ui, json!({"asset": asset, "amt": s(a), "id": f.flow_id, "funds": [{"d": asset, "amt": s(x)}]}))
+                // also stretch the flow (beyond the 180-epoch expansion limit the next expansion re-bases it)
+                let ext: u64 = match r.gen_range(0..8) { 0 => 10, 1 => 100, 2 => 190, 3 => 400, _ => 0 };
+                p.step(rec, run, step, "expandflow", ui, json!({"asset": asset, "amt": s(a), "id": f.flow_id, "ext": ext, "funds": [{"d": asset, "amt": s(x)}]}))
             }
             _ => {
                 let fl = p.flows();
